@@ -357,6 +357,19 @@ func copyDenseIter(dst, src DenseTensor, diter, siter Iterator) (int, error) {
 	return storage.CopyIter(dst.rtype(), dst.hdr(), src.hdr(), diter, siter), nil
 }
 
+// asRowMajor returns t itself if it is row-major, otherwise a contiguous row-major tensor with the same logical contents.
+// Kernels that move raw blocks of storage (repeat, stack, contraction, flat arg-reductions) read column-major operands through it.
+func asRowMajor(t DenseTensor) DenseTensor {
+	if !t.DataOrder().IsColMajor() {
+		return t
+	}
+	retVal := recycledDense(t.Dtype(), t.Shape().Clone(), WithEngine(t.Engine()))
+	if _, err := copyDenseIter(retVal, t, nil, nil); err != nil {
+		return t
+	}
+	return retVal
+}
+
 type scalarPtrCount struct {
 	Ptr   unsafe.Pointer
 	Count int
